@@ -144,6 +144,7 @@ func runC19(c *Ctx) {
 	_ = nSites
 
 	importRules(c, runC14, map[string]string{"C14.R2": "C19.R7"}, map[string]string{"C19.R7": "a failing read never leaves a mutex held (a later query would hang instead of degrading) (shared with C14.R2)"})
+	importRules(c, runC12, map[string]string{"C12.R7": "C19.R10"}, map[string]string{"C19.R10": "the index a rule is retrieved by points at a whole line of its list (shared with C12.R7)"})
 	// bucket scans continue past an unreadable entry
 	{
 		c.Rule("C19.R8", "WIRE", "bucket scans are complete: an unreadable entry is skipped, not the rest of the bucket", 3)
@@ -353,6 +354,48 @@ func runC19(c *Ctx) {
 					}
 				case *ssa.Panic:
 					bad = c.P.Pos(in.Pos()) + ": explicit panic in " + shortFn(fn)
+				case *ssa.Lookup:
+					// m[k] without the presence flag yields nil for a key that is not there: using
+					// it as a receiver or dereferencing it without a nil test panics for such a key
+					if in.CommaOk {
+						break
+					}
+					if _, isMap := in.X.Type().Underlying().(*types.Map); !isMap {
+						break
+					}
+					_, isPtr := in.Type().Underlying().(*types.Pointer)
+					_, isIface := in.Type().Underlying().(*types.Interface)
+					if !isPtr && !isIface {
+						break
+					}
+					used, tested := false, false
+					if rs := in.Referrers(); rs != nil {
+						for _, r := range *rs {
+							switch r := r.(type) {
+							case *ssa.BinOp:
+								if r.Op == token.EQL || r.Op == token.NEQ {
+									tested = true
+								}
+							case *ssa.FieldAddr:
+								used = true
+							case *ssa.UnOp:
+								if r.Op == token.MUL {
+									used = true
+								}
+							case ssa.CallInstruction:
+								cc := r.Common()
+								if cc.IsInvoke() && cc.Value == ssa.Value(in) {
+									used = true
+								}
+								if cal := cc.StaticCallee(); cal != nil && cal.Signature.Recv() != nil && len(cc.Args) > 0 && cc.Args[0] == ssa.Value(in) {
+									used = true
+								}
+							}
+						}
+					}
+					if used && !tested {
+						bad = c.P.Pos(in.Pos()) + ": a map entry is used as a receiver without a presence or nil test in " + shortFn(fn) + ": for a key that is not in the map the lookup yields nil and the call panics"
+					}
 				case *ssa.Call:
 					if cal := in.Call.StaticCallee(); cal != nil && strings.Contains(calleeName(cal), ".Must") {
 						bad = c.P.Pos(in.Pos()) + ": call of " + calleeName(cal) + " in " + shortFn(fn)
